@@ -121,6 +121,29 @@ fn boundary_pass() -> Vec<Op> {
         ]);
     }
     v.extend(vec![
+        // what a link reports about a target with unusual permission bits (the real backend answers is_readonly /
+        // is_exec through the link, mode() for the link itself)
+        Op::WriteAll(s("/q/ro"), b"r".to_vec()),
+        Op::Chmod(s("/q/ro"), 0o444),
+        Op::Symlink(s("/q/lro"), s("/q/ro")),
+        Op::WriteAll(s("/q/xx"), b"x".to_vec()),
+        Op::Chmod(s("/q/xx"), 0o755),
+        Op::Symlink(s("/q/lxx"), s("/q/xx")),
+        Op::MkdirM(s("/q/rod"), 0o555),
+        Op::Symlink(s("/q/lrod"), s("/q/rod")),
+        Op::IsReadonly(s("/q/lro")),
+        Op::IsExec(s("/q/lro")),
+        Op::Mode(s("/q/lro")),
+        Op::IsReadonly(s("/q/lxx")),
+        Op::IsExec(s("/q/lxx")),
+        Op::Mode(s("/q/lxx")),
+        Op::IsReadonly(s("/q/lrod")),
+        Op::IsExec(s("/q/lrod")),
+        Op::IsReadonly(s("/q/ro")),
+        Op::IsExec(s("/q/xx")),
+        Op::Entry(s("/q/lro")),
+        Op::Entry(s("/q/lrod")),
+        Op::Chmod(s("/q/rod"), 0o755),
         Op::WriteAll(s("/q/e1"), vec![]),
         Op::WriteLines(s("/q/e2"), vec![]),
         Op::WriteLines(s("/q/e3"), vec![s(""), s("a\nb"), s("")]),
